@@ -774,25 +774,39 @@ pub fn run(tier: Tier) -> i32 {
         envs: envs(),
     };
     let mut e2acc = Acc::new();
-    let depths: &[u16] = tier.pick(&[3], &[4]);
-    let cap = tier.pick(30_000_000, 300_000_000);
-    let res = e2::run("C12", model, depths, cap, &mut e2acc);
+    let res = e2::run("C12", model, &[3], 100_000_000, &mut e2acc);
     let mut bounds = json!({"sequences_e1": seq_bounds, "e2_alphabet": lines.len(), "e2_inits": envs().len(),
         "e2_completed_depth": res.completed_depth, "e2_capped_at_depth": res.capped_at_depth, "e2_per_depth": res.per_depth});
     let mut capped = res.capped_at_depth;
     if e2acc.viols.is_empty() {
-        // deeper level over the reduced alphabet
-        let deep = line_alphabet(tier, true);
-        let model = Model {
-            lines: std::sync::Arc::new(deep.clone()),
-            envs: envs().into_iter().filter(|e| e.default_bank == SampleBank::None).collect(),
-        };
-        let mut a = Acc::new();
-        let r = e2::run("C12", model, tier.pick(&[4], &[5, 6]), 300_000_000, &mut a);
-        bounds["e2_deep"] = json!({"alphabet": deep.len(), "completed_depth": r.completed_depth,
-            "capped_at_depth": r.capped_at_depth, "per_depth": r.per_depth});
-        capped = capped.or(r.capped_at_depth);
-        e2acc = e2acc.merge(a);
+        // deeper levels: quick = reduced alphabet depth 4 (BFS); thorough = the quick-tier alphabet to depth 4 for
+        // all 8 initial states and the reduced alphabet to depth 5 (depth-first search: same state set, little memory)
+        let mut levels: Vec<(Vec<String>, Vec<Env>, u16, bool)> = Vec::new();
+        let four: Vec<Env> = envs().into_iter().filter(|e| e.default_bank == SampleBank::None).collect();
+        if tier.thorough() {
+            levels.push((line_alphabet(Tier::Quick, false), envs(), 4, true));
+            levels.push((line_alphabet(tier, true), four.clone(), 5, true));
+            levels.push((line_alphabet(tier, true), four, 6, true));
+        } else {
+            levels.push((line_alphabet(tier, true), four, 4, false));
+        }
+        let mut deep_bounds = Vec::new();
+        for (alpha, envs, depth, dfs) in levels {
+            if !e2acc.viols.is_empty() {
+                break;
+            }
+            let model = Model {
+                lines: std::sync::Arc::new(alpha.clone()),
+                envs: envs.clone(),
+            };
+            let mut a = Acc::new();
+            let r = e2::run_opts("C12", model, &[depth], 600_000_000, dfs, &mut a);
+            deep_bounds.push(json!({"alphabet": alpha.len(), "inits": envs.len(), "completed_depth": r.completed_depth,
+                "capped_at_depth": r.capped_at_depth, "per_depth": r.per_depth}));
+            capped = capped.or(r.capped_at_depth);
+            e2acc = e2acc.merge(a);
+        }
+        bounds["e2_deep"] = json!(deep_bounds);
     }
     e2acc.evals += e2acc.transitions;
     e2acc.distinct_measured = Some(e2acc.states);
